@@ -69,9 +69,54 @@ def parsePSection : List String → Option (PTab × List String)
   | "P" :: j :: rest => (nat? j).bind (fun j => parseP j rest)
   | rest => some ([], rest)
 
-/-- hex without the leading `x` marker, as used inside event tokens -/
-def unhexBare (s : String) : Option Bytes := if s = "." then some [] else Hex.decodeChars s.toList
-def hexBare (b : Bytes) : String := String.ofList (Hex.encodeChars b)
+/-! ### byte strings in tokens: bare hex with run-length groups `(bb*N)` (see `hexr` in framing.rs) -/
+
+/-- `n` copies of `b` in front of `tail` (one pass, nothing copied) -/
+def consN : Nat → UInt8 → Bytes → Bytes
+  | 0, _, acc => acc
+  | n + 1, b, acc => consN n b (b :: acc)
+
+/-- one piece `bb*N)rest` after an opening parenthesis: the byte, the count, the plain bytes after it -/
+def decodeRun (piece : String) : Option (UInt8 × Nat × Bytes) :=
+  match piece.splitOn ")" with
+  | [run, rest] =>
+    match run.splitOn "*", Hex.decodeChars rest.toList with
+    | [bb, n], some tail =>
+      match Hex.decodeChars bb.toList, n.toNat? with
+      | some [b], some n => some (b, n, tail)
+      | _, _ => none
+    | _, _ => none
+  | _ => none
+
+/-- hex without the leading `x` marker, as used inside event tokens; `.` is the empty string;
+runs may be written `(bb*N)` -/
+def unhexBare (s : String) : Option Bytes :=
+  if s = "." then some [] else
+  match s.splitOn "(" with
+  | [] => some []
+  | first :: runs =>
+    match Hex.decodeChars first.toList, runs.mapM decodeRun with
+    | some h, some rs => some (h ++ rs.foldr (fun (b, n, plain) acc => consN n b (plain ++ acc)) [])
+    | _, _ => none
+
+/-- number of leading bytes equal to `b` (starting the count at `n`), and the rest -/
+def runLen (b : UInt8) : Bytes → Nat → Nat × Bytes
+  | x :: xs, n => if x = b then runLen b xs (n + 1) else (n, x :: xs)
+  | [], n => (n, [])
+
+def hexRleAux : Nat → Bytes → String → String
+  | 0, _, acc => acc
+  | _ + 1, [], acc => acc
+  | fuel + 1, b :: bs, acc =>
+    let hi := Hex.digit (b.toNat / 16)
+    let lo := Hex.digit (b.toNat % 16)
+    let (n, rest) := runLen b bs 1
+    if n ≥ 32 then hexRleAux fuel rest ((((acc.push '(').push hi).push lo).push '*' ++ toString n ++ ")")
+    else hexRleAux fuel bs ((acc.push hi).push lo)
+
+/-- the canonical text of a byte string: bare hex, every maximal run (from the left) of 32 or
+more equal bytes as `(bb*N)` -/
+def hexBare (b : Bytes) : String := hexRleAux b.length b ""
 
 /-- a message of an encoder case: its bytes, and whether the harness's encoder double fails on it -/
 abbrev EMsg := Bytes × Bool
@@ -96,11 +141,11 @@ structure EncCase where
 
 def parseSrcEv (s : String) : Option (SrcEv EMsg) :=
   match s.toList with
-  | 'i' :: cs => (Hex.decodeChars cs).map (fun b => .item (b, false))
+  | 'i' :: cs => (unhexBare (String.ofList cs)).map (fun b => .item (b, false))
   | 'f' :: cs =>
     -- `f<k>.<hex>`: what the double wrote before failing (`k` bytes) is dropped by tonic, so the model ignores `k`
     match (String.ofList cs).splitOn "." with
-    | [_, h] => (Hex.decodeChars h.toList).map (fun b => .item (b, true))
+    | [_, h] => (unhexBare h).map (fun b => .item (b, true))
     | _ => none
   | 'e' :: cs => (String.ofList cs).toNat?.map (fun c => .err ⟨c, .user⟩)
   | ['p'] => some .pending
@@ -136,11 +181,13 @@ def frameTok (prost : Bool) : FrameOut → String
 
 /-- one token per poll, then `E<bits>` (the model's `is_end_stream` before every poll and after
 the last) and `Hd` (the model's `size_hint` is the default in every state) -/
-def runEnc (c : EncCase) : String :=
-  let flags := Enc.endFlags (encCodec c.tab) c.cfg c.npolls Enc.init c.evs
+def runEncToks (c : EncCase) : List String :=
+  let (tr, last) := Enc.trace (encCodec c.tab) c.cfg c.npolls Enc.init c.evs
+  let flags := tr.map (·.1) ++ [last]
   let hint := if Enc.sizeHint Enc.init == (0, none) then "Hd" else "H?"
-  String.intercalate " " ((Enc.run (encCodec c.tab) c.cfg c.npolls Enc.init c.evs).map (frameTok c.prost)
-    ++ ["E" ++ String.ofList (flags.map (fun b => if b then '1' else '0')), hint])
+  tr.map (fun x => frameTok c.prost x.2) ++ ["E" ++ String.ofList (flags.map (fun b => if b then '1' else '0')), hint]
+
+def runEnc (c : EncCase) : String := String.intercalate " " (runEncToks c)
 
 structure DecCase where
   prost : Bool := false
@@ -152,7 +199,7 @@ structure DecCase where
 
 def parseBodyEv (s : String) : Option BodyEv :=
   match s.toList with
-  | 'd' :: cs => (Hex.decodeChars cs).map .data
+  | 'd' :: cs => (unhexBare (String.ofList cs)).map .data
   | 't' :: cs => let r := String.ofList cs
                  if r = "none" then some (.trailers none) else r.toNat?.map (fun c => .trailers (some c))
   | 'e' :: cs => (String.ofList cs).toNat?.map (fun c => .err ⟨c, .user⟩)
@@ -199,6 +246,17 @@ def model (case : List String) : Option String :=
   | "penc" :: _ => (parseEncCase case).map runEnc
   | "dec" :: _ => (parseDecCase case).map runDec
   | "pdec" :: _ => (parseDecCase case).map runDec
+  | _ => none
+
+/-- a framing case, parsed once (the verdicts and the model run share it) -/
+inductive FCase
+  | enc (c : EncCase)
+  | dec (c : DecCase)
+
+def parseCase (case : List String) : Option FCase :=
+  match case with
+  | "enc" :: _ | "penc" :: _ => (parseEncCase case).map .enc
+  | "dec" :: _ | "pdec" :: _ => (parseDecCase case).map .dec
   | _ => none
 
 /-! ### spec-side helpers (use `Spec.Framing` only, never the model) -/
@@ -250,6 +308,77 @@ def sizeHintOk (obs : List String) : Bool :=
     (List.range hints.length).all (fun i =>
       let (l, u) := hints.getD i (0, none)
       decide (l ≤ remaining i) && (match u with | some u => decide (remaining i ≤ u) | none => true))
+
+/-- do the chunks concatenate to `whole`? (no concatenation is built) -/
+def eqConcat : List Bytes → Bytes → Bool
+  | [], whole => whole.isEmpty
+  | c :: cs, whole =>
+    let rec strip : Bytes → Bytes → Option Bytes
+      | [], w => some w
+      | _ :: _, [] => none
+      | x :: xs, y :: ys => if x == y then strip xs ys else none
+    match strip c whole with
+    | some rest => eqConcat cs rest
+    | none => false
+
+/-! ### Batching (rev1-FA3)
+
+C01 says the bytes do not depend on how output is batched, so where the chunk boundaries fall is
+not compared token for token: the model column repeats the observed polls whenever they differ
+from the model's own only by a *legal re-batching* — same bytes and same terminal frames
+(`canonEnc`), and every observed chunk obeys the batching contract (`batchingOk`). -/
+
+/-- an encoder observation up to batching: `Pending`s, the `E`/`H` tokens and trailing `n`s
+dropped, adjacent data chunks merged -/
+def canonEnc (toks : List String) : List String :=
+  let toks := toks.filter (fun t => t ≠ "p" && tokKind t ≠ 'E' && tokKind t ≠ 'H')
+  let flush (acc : List Bytes) (out : List String) : List String :=
+    if acc.isEmpty then out else ("d" ++ hexBare acc.reverse.flatten) :: out
+  let rec go : List String → List Bytes → List String → List String
+    | [], acc, out => flush acc out
+    | t :: r, acc, out =>
+      if tokKind t = 'd' then
+        match unhexBare (t.drop 1).toString with
+        | some b => go r (b :: acc) out
+        | none => go r [] (t :: flush acc out)
+      else go r [] (t :: flush acc out)
+  ((go toks [] []).dropWhile (· == "n")).reverse
+
+/-- is the message refused by `encode_item` (its encoder fails, or its payload is over the limit)? -/
+def refusedItem (c : EncCase) (m : EMsg) : Bool :=
+  m.2 || (match c.cfg.maxSize with
+    | some l => decide ((if c.cfg.comp.isSome then (tableCodec c.tab).cz .gzip m.1 else m.1).length > l)
+    | none => false)
+
+/-- The batching contract of `EncodedBytes::poll_next`, judged on the observed chunks and the
+case's source schedule alone: every chunk is non-empty and consists of whole frames, of
+consecutive ready items (nothing is held back across a `Pending` or an error of the source), and
+it ends either because the source had nothing more to give right then (`Pending`, end, error, a
+refused item) or because it reached the yield threshold — not having exceeded it before its last
+frame. -/
+def batchingOk (c : EncCase) (obs : List String) : Bool :=
+  let chunks := obsData (obs.filter (fun t => tokKind t ≠ 'E' && tokKind t ≠ 'H'))
+  let isGood : SrcEv EMsg → Bool := fun | .item m => !refusedItem c m | _ => false
+  let rec go : List Bytes → List (SrcEv EMsg) → Bool
+    | [], _ => true
+    | ch :: rest, evs =>
+      let (frs, left) := Spec.Framing.split ch
+      let k := frs.length
+      let evs := evs.dropWhile (fun e => !isGood e)
+      let lastLen := match frs.getLast? with | some fp => 5 + fp.2.length | none => 0
+      left.isEmpty && k > 0 &&
+      (evs.take k).length == k && (evs.take k).all isGood &&
+      ((decide (ch.length ≥ c.cfg.yieldThr) && decide (ch.length - lastLen ≤ c.cfg.yieldThr)) ||
+        (match (evs.drop k).head? with | none => true | some e => !isGood e)) &&
+      go rest (evs.drop k)
+  go chunks c.evs
+
+/-- the model column for an encoder case -/
+def encColumn (c : EncCase) (obs : List String) : String :=
+  let m := runEncToks c
+  if m == obs then String.intercalate " " m
+  else if canonEnc m == canonEnc obs && batchingOk c obs then String.intercalate " " obs
+  else String.intercalate " " m
 
 /-- the tokens that are neither pending nor data/message -/
 def isBad (t : String) : Bool := t = "panic" || t = "busy-loop" || t = "hang"
